@@ -15,7 +15,7 @@ def flip_first_ok(ev):
     def walk(x):
         if isinstance(x, dict):
             for k in sorted(x):
-                if k in ("ok", "same", "ab", "sonic_ok") and isinstance(x[k], bool):
+                if k in ("ok", "same", "ab", "sonic_ok", "some") and isinstance(x[k], bool):
                     x[k] = not x[k]
                     return True
                 if walk(x[k]):
@@ -26,6 +26,9 @@ def flip_first_ok(ev):
                     return True
         return False
     e = copy.deepcopy(ev)
+    if e.get("ev") == "rt" and isinstance(e.get("s2"), list):
+        e["s2"] = e["s2"] + [32]          # the second serialisation differs by one trailing blank
+        return e
     return e if walk(e) else None
 
 
